@@ -79,6 +79,63 @@ def compare(ra, rb, rtol, circ=False, atol=0.0, circ_atol=1e-6, exact=False):
     return True, None
 
 
-def parts_multiset(r, lead_first=("part",)):
-    """For a partition result (part, ..., freq, dir): per position, multiset of partition arrays."""
-    raise NotImplementedError
+CANCEL = {"dspr": 1.0, "dpspr": 1.0, "swe": 0.02, "sw": 0.02, "gw": None}
+
+
+def compare_cancel(ra, rb, f32, name, rt=None):
+    """Quantities of the form sqrt(small difference): decided only where the value is well above
+    the rounding floor; returns (None, None) when nothing is decidable."""
+    rb = align_to(rb, ra)
+    a = np.asarray(ra.compute().values if hasattr(ra, "compute") else ra, dtype="float64")
+    b = np.asarray(rb.compute().values if hasattr(rb, "compute") else rb, dtype="float64")
+    if a.shape != b.shape:
+        return False, {"reason": "shape", "a": a.shape, "b": b.shape}
+    if name == "gw":
+        floor = 0.05 * np.nanmax(np.abs(a)) if np.isfinite(a).any() else np.inf
+    else:
+        floor = CANCEL[name] * (1.0 if f32 else 0.05)
+    m = np.isfinite(a) & np.isfinite(b) & (a > floor) & (b > floor)
+    if not m.any():
+        return None, None
+    rt = rt or (5e-3 if f32 else 1e-6)
+    bad = np.abs(a[m] - b[m]) > rt * np.abs(a[m])
+    if bad.any():
+        return False, {"reason": "values differ", "a": a, "b": b}
+    return True, None
+
+
+def compare_parts(ra, rb, nfixed):
+    """Watershed results: wind-sea slots in place, remaining partitions as a multiset per position."""
+    try:
+        rb = align_to(rb, ra)
+    except (ValueError, KeyError) as e:
+        return False, {"reason": "cannot align by labels", "error": repr(e)[:300]}
+    a = np.asarray(ra.transpose("part", ..., "freq", "dir").values)
+    b = np.asarray(rb.transpose("part", ..., "freq", "dir").values)
+    if a.shape != b.shape:
+        return False, {"reason": "shape", "a": a.shape, "b": b.shape}
+    P_ = a.shape[0]
+    a = a.reshape(P_, -1, a.shape[-2] * a.shape[-1])
+    b = b.reshape(P_, -1, b.shape[-2] * b.shape[-1])
+    for pos in range(a.shape[1]):
+        for k in range(nfixed):
+            if not np.array_equal(a[k, pos], b[k, pos]):
+                return False, {"reason": "wind-sea partition differs", "part": k, "position": pos}
+        sa = sorted(a[k, pos].tobytes() for k in range(nfixed, P_))
+        sb = sorted(b[k, pos].tobytes() for k in range(nfixed, P_))
+        if sa != sb:
+            return False, {"reason": "set of swell partitions differs", "position": pos,
+                           "nonzero_bins_a": [int((a[k, pos] != 0).sum()) for k in range(P_)],
+                           "nonzero_bins_b": [int((b[k, pos] != 0).sum()) for k in range(P_)]}
+    return True, None
+
+
+def compare_op(op, ra, rb, f32, rtol=None, circ_atol=None, multiset=True):
+    """Compare two results of the same operation. Returns (ok | None, detail); None = inconclusive."""
+    name = op.name
+    if op.watershed and multiset:
+        return compare_parts(ra, rb, 1 if name == "ptm1" else (2 if name == "ptm2" else 0))
+    if name in CANCEL:
+        return compare_cancel(ra, rb, f32, name)
+    rtol = rtol if rtol is not None else (2e-5 if f32 else 1e-9)
+    return compare(ra, rb, rtol, circ=op.circ, circ_atol=circ_atol if circ_atol is not None else (0.05 if f32 else 1e-6))
